@@ -469,7 +469,7 @@ func suiteScheme(c *Ctx) {
 						continue
 					}
 				}
-				if len(q) > api.maxPw || (api.name == "des" && equivDES(q, pw)) {
+				if len(q) > api.maxPw || (api.name == "des" && equivDES(q, pw)) || (api.name == "desext" && equivDESExt(q, pw)) {
 					continue
 				}
 				if api.name == "bcrypt" && len(pw) >= 72 && len(q) >= 72 && string(q[:72]) == string(pw[:72]) {
@@ -534,23 +534,39 @@ func suiteScheme(c *Ctx) {
 var numRe = regexp.MustCompile(`[0-9]+`)
 var groupRe = regexp.MustCompile(`[a-z]+=[0-9]+(,[a-z]+=[0-9]+)+`)
 
-func equivDES(a, b []byte) bool {
-	if len(a) > 8 {
-		a = a[:8]
+// equivDESExt: BSDi folds the password in 8-byte blocks of 7-bit bytes; two passwords are the same key when they
+// have the same number of blocks and the same masked, zero-padded content.
+func equivDESExt(a, b []byte) bool {
+	blocks := func(n int) int {
+		if n <= 8 {
+			return 1
+		}
+		return (n + 7) / 8
 	}
-	if len(b) > 8 {
-		b = b[:8]
-	}
-	if len(a) != len(b) {
-		// shorter keys are zero-padded: "ab" vs "ab\x00"… only NUL-free inputs are generated, so lengths decide
+	if blocks(len(a)) != blocks(len(b)) {
 		return false
 	}
+	n := blocks(len(a)) * 8
+	ka, kb := make([]byte, n), make([]byte, n)
 	for i := range a {
-		if a[i]&0x7f != b[i]&0x7f {
-			return false
-		}
+		ka[i] = a[i] & 0x7f
 	}
-	return true
+	for i := range b {
+		kb[i] = b[i] & 0x7f
+	}
+	return string(ka) == string(kb)
+}
+
+func equivDES(a, b []byte) bool {
+	// the DES key is the low 7 bits of each of the first 8 bytes, zero-padded: a byte 0x80 (or NUL) counts as absent
+	var ka, kb [8]byte
+	for i := 0; i < 8 && i < len(a); i++ {
+		ka[i] = a[i] & 0x7f
+	}
+	for i := 0; i < 8 && i < len(b); i++ {
+		kb[i] = b[i] & 0x7f
+	}
+	return ka == kb
 }
 
 // suiteClassify (C06): every string at edit distance 1 from a canonical hash under the
